@@ -12,10 +12,11 @@
    What is proved here.  `_partial` marks theorems whose histories are restricted
    to update / delete / get / hash in any order (Hash() anywhere in between, so
    the hasher's reuse of cached hashes is covered) on a trie held in memory;
-   commit + reopen is covered by C10_commit_reopen_partial for one commit of a
-   trie without cached hashes; repeated commits with cache-generation unloading
-   (SetCacheLimit) and Prove are tied to the code by the correspondence runs and
-   direct oracles of harness/cmd/c10 only.  Full: the specification root is a
+   commit + reopen (C10_commit_reopen_partial) and Prove-then-Verify
+   (C10_prove_then_verify_partial) are proved for a trie without cached hashes
+   (one commit); repeated commits with cache-generation unloading (SetCacheLimit)
+   and updates on a lazily loaded trie are tied to the code by the correspondence
+   runs and direct oracles of harness/cmd/c10 only.  Full: the specification root is a
    function of the finite map; decodeNode / VerifyProof are total (no panic);
    VerifyProof is sound for every set of proof nodes under collision freedom of
    H on the strings compared.  Refuted: absence in the EMPTY trie has no
@@ -33,7 +34,7 @@
    gives (get = map lookup, hash = specification root of the content). *)
 From Coq Require Import Permutation.
 From AQ Require Import Lib.Bytes Lib.Keccak Rlp.RlpSpec Trie.MptSpec Trie.TrieModel Trie.TrieInv
-  Trie.MptSpecProofs Trie.TrieCodecDefs Trie.TrieFlagsProofs Trie.TrieTheorems Trie.TrieReopenProofs.
+  Trie.MptSpecProofs Trie.TrieCodecDefs Trie.TrieFlagsProofs Trie.TrieTheorems Trie.TrieReopenProofs Trie.TrieProveProofs.
 Local Open Scope N_scope.
 
 (* TryGet returns exactly the content and leaves the trie unchanged *)
@@ -158,6 +159,21 @@ Theorem C10_history_commit_reopen_partial : forall H : bytes -> bytes,
 Proof. exact history_commit_reopen. Qed.
 Print Assumptions C10_history_commit_reopen_partial.
 
+(* completeness: the proof Prove produces for ANY key verifies against the root to
+   the content's answer for that key — its value, or its absence — for every
+   non-empty canonical trie (without cached hashes: `_partial`); for the empty
+   trie this is false, see C10_empty_trie_absence_proof_refuted *)
+Theorem C10_prove_then_verify_partial : forall H : bytes -> bytes,
+  (forall x, length (H x) = 32%nat) ->
+  (forall m1 m2, canon m1 = true -> canon m2 = true -> H (spec_enc H m1) = H (spec_enc H m2) ->
+                 spec_enc H m1 = spec_enc H m2) ->
+  forall t d k, canon (troot t) = true -> nohash (troot t) = true -> all_fits H (troot t) ->
+  exists p, trie_prove H t d k = Ok p /\
+    verify_proof (mpt_root_hex H (content_of (troot t))) k p
+      = Ok (lookup (content_of (troot t)) (keybytes_to_hex k)).
+Proof. exact prove_verify_closed. Qed.
+Print Assumptions C10_prove_then_verify_partial.
+
 (* the premise on H is met by the Gallina Keccak-256 the executable model uses *)
 Theorem C10_keccak_instance : forall ops, forallb plain_op ops = true ->
   exists s' obl, run_ops keccak256 init_state ops = (s', obl) /\ warm_trie keccak256 (strie s') /\ sdb s' = [] /\
@@ -230,10 +246,10 @@ Example C10_example :
   end = true.
 Proof. vm_compute. reflexivity. Qed.
 
-(* non-vacuity of the commit/reopen and proof theorems: the same trie meets
-   `all_fits`, `db_sound []` holds, the committed root is neither the zero hash nor
-   emptyRoot, and (by computation with the Gallina Keccak) reopening and reading
-   back, iterating, and Prove + VerifyProof give the content *)
+(* non-vacuity of the commit/reopen, iteration and proof theorems, by computation
+   with the Gallina Keccak: the committed root of the same trie is neither the
+   zero hash nor emptyRoot; reopening from it and reading back, iterating, and
+   Prove + VerifyProof (presence and absence) give the content *)
 Example C10_example_commit_reopen_prove :
   let s2b := map (fun n => n2b n) in
   let do_ := s2b [100; 111] in let dog := s2b [100; 111; 103] in
@@ -243,7 +259,6 @@ Example C10_example_commit_reopen_prove :
   let ops := [(doge, coin); (horse, stallion); (do_, verb); (dog, puppy)] in
   match apply_ops empty_trie [] ops with
   | Ok t =>
-    all_fits keccak256 (troot t) /\ db_sound keccak256 [] /\
     match trie_commit keccak256 t [] with
     | Ok (r, _, d') =>
       negb (bytes_eqb r zero_hash) && negb (bytes_eqb r (empty_root keccak256)) &&
@@ -261,9 +276,7 @@ Example C10_example_commit_reopen_prove :
       | _ => false
       end
     | _ => false
-    end = true
-  | _ => False
-  end.
-Proof.
-  vm_compute. repeat split; try reflexivity. intros h e Hd. discriminate Hd.
-Qed.
+    end
+  | _ => false
+  end = true.
+Proof. vm_compute. reflexivity. Qed.
